@@ -7,3 +7,4 @@ for p in $(python3 -c "import json; print(' '.join(c['property_id'] for c in jso
   echo "$p rc=$rc $(echo "$out" | tail -1)"
   [ $rc -ne 0 ] && echo "$out" | grep -v "^NOTE\|^KNOWN" | head -5
 done
+true
